@@ -379,7 +379,10 @@ class Model():
         for field_name in field_names:
             for asset in getattr(association, field_name):
                 asset_assocs = list(asset.associations)
-                asset_assocs.append(association)
+                # An asset that is part of both fields lists the association
+                # only once
+                if not any(assoc is association for assoc in asset_assocs):
+                    asset_assocs.append(association)
                 asset.associations = asset_assocs
 
         self.associations.append(association)
